@@ -26,8 +26,12 @@ public:
         if (this->count.size() != array.dataExtent().size()) {
             throw IncompatibleDimensions("DataView count dimensionality does not match dimensionality of data", "nix::DataView");
         }
-        if (this->offset + this->count > array.dataExtent()) {
-            throw OutOfBounds("Trying to create DataView which is out of bounds");
+        const NDSize extent = array.dataExtent();
+        for (size_t i = 0; i < extent.size(); i++) {
+            // written without offset + count, which can wrap around
+            if (this->offset[i] > extent[i] || this->count[i] > extent[i] - this->offset[i]) {
+                throw OutOfBounds("Trying to create DataView which is out of bounds");
+            }
         }
     }
 
